@@ -396,7 +396,7 @@ func intToValue(i int64) Value {
 	if i >= -maxInt && i <= maxInt {
 		return valueInt(i)
 	}
-	return valueFloat(i)
+	return floatToValue(float64(i))
 }
 
 func floatToInt(f float64) (result int64, ok bool) {
